@@ -2,7 +2,6 @@ package main
 
 import (
 	"fmt"
-	"go/types"
 	"strings"
 
 	"golang.org/x/tools/go/ssa"
@@ -21,7 +20,8 @@ func init() {
 			"signedToken.Verify with Roots built only from those certificates and CurrentTime = the timestamp, ValidateTimestampingCertChain, BoundedAfter(NotBefore) and BoundedBefore(NotAfter) for every certificate of the signing chain, " +
 			"and revocation of the TSA chain (validator error and every aggregate other than OK fail-closed); (e) the authentic-timestamp result for notary.x509 is exactly the timestamp function's error. " +
 			"Shapes: instants compared with Before/After/Compare are one canonical relation; a whole-chain check is an inline loop, a module helper containing the loop, or slices.IndexFunc/ContainsFunc with a predicate; " +
-			"a result's error may be a literal per exit or one variable assigned on the branches; provenance is read in the frame of the single caller of an unexported function (struct-of-options fields, pointer to a read-only local copy).",
+			"a result's error may be a literal per exit or one variable assigned on the branches, and the result may be built by a constructor function that is handed the error; provenance is read in the frame of the single caller of an unexported function (struct-of-options fields, pointer to a read-only local copy, narrowed parameters); " +
+			"the timestamp function is designated by its role (its error is the notary.x509 result) and judged as a whole: the decision table follows the helpers that take part in the decision (answering a boolean or an enumeration), the must-pass facts of the timestamp path are composed through the helpers the function gates on.",
 		NotCov:  "RFC 3161 token verification (tspclient-go), equal-instant boundaries of time.Time comparisons, the revocation aggregator itself (C05).",
 		Trusted: []string{"go/types, go/ssa", "tspclient-go", "time.Time Before/After/Compare/IsZero", "slices.IndexFunc/ContainsFunc, strings.Cut/HasPrefix", "notation-core-go x509.ValidateTimestampingCertChain"},
 	})
@@ -31,27 +31,36 @@ func runC06(c *Ctx) {
 	w := c.W
 	te, _ := w.constString("verifier/trustpolicy", "TypeExpiry")
 	tat, _ := w.constString("verifier/trustpolicy", "TypeAuthenticTimestamp")
-	var EXP, ATS, T *ssa.Function
+	// anchors by role: the function that produces the result of type expiry / authenticTimestamp — it fills the result in
+	// itself or has a constructor build it (a constructor that is handed the error or the type is not the producer: it has
+	// no say on them) — and the function that parses the countersignature
+	var EXP, ATS, P *ssa.Function
 	for _, fn := range w.FuncsOfPkg("verifier") {
-		if fn.Signature.Results().Len() == 1 && isVRPtr(fn.Signature.Results().At(0).Type()) {
-			if allocatesType(w, fn, fmt.Sprintf("%q", te)) {
+		if ct := c06CtorOf(w, fn); fn.Signature.Results().Len() == 1 && isVRPtr(fn.Signature.Results().At(0).Type()) && (ct == nil || (ct.errParam < 0 && ct.typeParam < 0)) {
+			if c06YieldsType(w, fn, fmt.Sprintf("%q", te)) {
 				EXP = fn
 			}
-			if allocatesType(w, fn, fmt.Sprintf("%q", tat)) {
+			if c06YieldsType(w, fn, fmt.Sprintf("%q", tat)) {
 				ATS = fn
 			}
 		}
 		if len(findCalls(fn, "tspclient.ParseSignedToken")) > 0 {
-			T = fn
+			P = fn
 		}
 	}
-	if EXP == nil || ATS == nil || T == nil {
-		c.Unk("anchors", "anchors: the functions producing the expiry and authentic-timestamp results and the one parsing the countersignature", "-", fmt.Sprintf("expiry=%v authenticTimestamp=%v timestamp=%v", EXP != nil, ATS != nil, T != nil))
+	if EXP == nil || ATS == nil || P == nil {
+		c.Unk("anchors", "anchors: the functions producing the expiry and authentic-timestamp results and the one parsing the countersignature", "-", fmt.Sprintf("expiry=%v authenticTimestamp=%v timestamp=%v", EXP != nil, ATS != nil, P != nil))
 		return
 	}
 	sc := newC06Scanner(w)
 	c06Expiry(c, EXP)
-	c06SigningAuthority(c, sc, ATS, T)
+	// the timestamp function: the function whose error is the authentic-timestamp result under notary.x509 (it may parse the
+	// countersignature itself or leave that to a helper); if the dispatch does not designate one, the remaining obligations
+	// are still judged on the function that parses the countersignature
+	T := c06SigningAuthority(c, sc, ATS)
+	if T == nil {
+		T = P
+	}
 	c06Regime(c, sc, T)
 	c06TimestampPath(c, sc, T)
 	c.MinCount("", 20, "clock obligations")
@@ -106,7 +115,7 @@ func c06WindowFacts(s *c06Scan, tD string) (bool, bool) {
 	return s.Facts["NOTBEFORE("+tD+","+s.Chain+"[*].NotBefore)"], s.Facts["NOTBEFORE("+s.Chain+"[*].NotAfter,"+tD+")"]
 }
 
-func c06SigningAuthority(c *Ctx, sc *c06Scanner, ATS, T *ssa.Function) {
+func c06SigningAuthority(c *Ctx, sc *c06Scanner, ATS *ssa.Function) *ssa.Function {
 	w := c.W
 	fi := w.Info(ATS)
 	fr := c06FrameOf(w, ATS)
@@ -116,12 +125,25 @@ func c06SigningAuthority(c *Ctx, sc *c06Scanner, ATS, T *ssa.Function) {
 	exits, states := c06ObjExits(w, ATS, 0)
 	exits = fr.liftExits(exits)
 	c.Evals += states
-	// (e) notary.x509: tail = T
+	// (e) notary.x509: every error-free result under that scheme is the tail of one and the same module function, and that
+	// function (T, "the timestamp function") is the one the countersignature is parsed in or under. T is designated by this
+	// role, not by where the parsing sits: the obligations on the regime and on the timestamp path are then judged on T as a
+	// whole (through its helpers), which is what the result depends on.
+	var T *ssa.Function
 	okTail, okOther := false, false
 	schemeEQ := fmt.Sprintf(".SignedAttributes.SigningScheme,const:%q)", sx)
 	for _, ex := range exits {
 		if _, h := hasLabel(ex.Checked, "EQ(", schemeEQ); h {
-			if ex.Tail == fnName(T) {
+			var tf *ssa.Function
+			if ex.Tail != "" {
+				for _, g := range w.moduleCallees(ATS) {
+					if g != ATS && fnName(g) == ex.Tail && g.Signature.Results().Len() > 0 && isErrorType(g.Signature.Results().At(g.Signature.Results().Len()-1).Type()) && c06ReachesParse(w, g) {
+						tf = g
+					}
+				}
+			}
+			if tf != nil && (T == nil || T == tf) {
+				T = tf
 				okTail = true
 			} else {
 				okTail = false
@@ -158,11 +180,12 @@ func c06SigningAuthority(c *Ctx, sc *c06Scanner, ATS, T *ssa.Function) {
 	}
 	if cand == nil || !okOther {
 		c.Bad("signing-authority/window", rule, w.FnPos(ATS), "no loop over SignerInfo.CertificateChain on the signing-authority branch")
-		return
+		return T
 	}
 	tD := strings.TrimSuffix(cand.Chain, ".CertificateChain") + ".SignedAttributes.SigningTime"
 	c.Check(h1 && h2 && candWit == nil, "signing-authority/window", rule, cand.Site,
 		fmt.Sprintf("not-before gate=%v not-after gate=%v (time operand must be %s); an error-free result that does not lie behind the complete scan=%v", h1, h2, tD, candWit != nil), candWit...)
+	return T
 }
 
 // backEdges returns the back edges of a loop header as a cut set.
@@ -185,7 +208,11 @@ func backEdges(h *ssa.BasicBlock) map[edgeKey]bool {
 func tsStopBlock(T *ssa.Function) *ssa.BasicBlock {
 	for _, b := range T.Blocks {
 		if iff, ok := blockTerm(b).(*ssa.If); ok {
-			if strings.Contains(condLabel(iff.Cond, true), ".UnsignedAttributes.TimestampSignature") {
+			// a test of the countersignature itself (its length, or the slice against nil) — not any condition that merely
+			// depends on it (the verdict of a helper that was handed the parsed token mentions it too)
+			_, args := splitTopArgs(condLabel(iff.Cond, true))
+			if len(args) == 2 && (strings.HasSuffix(args[0], ".UnsignedAttributes.TimestampSignature") ||
+				(strings.HasPrefix(args[0], "len(") && strings.HasSuffix(args[0], ".UnsignedAttributes.TimestampSignature)"))) {
 				return b
 			}
 		}
@@ -204,25 +231,43 @@ func c06Regime(c *Ctx, sc *c06Scanner, T *ssa.Function) {
 	// of the function that owns it (c06FrameOf)
 	fr := c06FrameOf(w, T)
 	c.SeenFn(T.String())
-	ts := tsStopBlock(T)
-	if ts == nil {
+	tsBlocks := c06TsBlocks(w, T)
+	if len(tsBlocks) == 0 {
 		c.Unk("regime/anchor", "anchor: the first block of the timestamp regime", w.FnPos(T), "not found")
 		return
 	}
-	// the tsa-enabled helper
-	var G *ssa.Function
+	// the tsa-enabled helper: the (bool, error) module function that tests the store type, called by T or by a helper of
+	// T; of a chain of wrappers the innermost one is the helper (the wrappers are followed by the decision table)
+	var G, gIn *ssa.Function
 	var gCall *ssa.Call
-	for _, ci := range allCalls(T) {
-		call, ok := ci.(*ssa.Call)
-		if !ok {
-			continue
+	isCand := func(g *ssa.Function) bool {
+		if g == nil || !w.IsProductFn(g) || g.Blocks == nil || g.Signature.Results().Len() != 2 {
+			return false
 		}
-		g := staticCallee(call)
-		if g == nil || !w.IsProductFn(g) || g.Signature.Results().Len() != 2 {
-			continue
+		return g.Signature.Results().At(0).Type().String() == "bool" && isErrorType(g.Signature.Results().At(1).Type()) && !c06ReachesParse(w, g) && (mentionsConst(w, g, "tsa") || mentionsConst(w, g, "tsa:"))
+	}
+	for _, f := range w.moduleCallees(T) {
+		if c06ReachesParse(w, f) && f != T {
+			continue // a helper of the timestamp regime: the decision has been taken when it runs
 		}
-		if g.Signature.Results().At(0).Type().String() == "bool" && isErrorType(g.Signature.Results().At(1).Type()) && (mentionsConst(w, g, "tsa") || mentionsConst(w, g, "tsa:")) {
-			G, gCall = g, call
+		for _, ci := range allCalls(f) {
+			call, ok := ci.(*ssa.Call)
+			if !ok {
+				continue
+			}
+			g := staticCallee(call)
+			if !isCand(g) {
+				continue
+			}
+			inner := true
+			for _, h := range w.moduleCallees(g)[1:] {
+				if isCand(h) {
+					inner = false
+				}
+			}
+			if inner {
+				G, gCall, gIn = g, call, f
+			}
 		}
 	}
 	if G == nil {
@@ -261,8 +306,9 @@ func c06Regime(c *Ctx, sc *c06Scanner, T *ssa.Function) {
 		}
 		// stores argument provenance
 		storesOK := false
+		gLift := c06LifterIn(w, gIn, T, fr)
 		for _, a := range gCall.Call.Args {
-			if d := fr.lift(desc(a)); d == w.paramFedBy(fr.Fn, ".TrustStores") || strings.HasSuffix(d, ".TrustStores") {
+			if d := gLift(desc(a)); d == w.paramFedBy(fr.Fn, ".TrustStores") || strings.HasSuffix(d, ".TrustStores") {
 				storesOK = true
 			}
 		}
@@ -271,88 +317,27 @@ func c06Regime(c *Ctx, sc *c06Scanner, T *ssa.Function) {
 	}
 	oa, _ := w.constString("verifier/trustpolicy", "OptionAfterCertExpiry")
 	oal, _ := w.constString("verifier/trustpolicy", "OptionAlways")
-	// the "chain expired" decision taken by a call instead of an inline loop: a boolean call q that is a whole-chain scan
-	// (helper containing the loop, or slices.ContainsFunc) with: q == Want  =>  for every certificate NotAfter is not before
-	// time.Now() (none expired), and q != Want  =>  for some certificate NotAfter is before time.Now() (one expired).
-	// Then q's answer is the abstract input "expired" of the decision table, exactly what the inline loop computes.
-	var expScan *c06Scan
-	for _, s := range sc.lifted(T, fr) {
-		if s.Call == nil || s.Exists == nil || !strings.HasSuffix(s.Chain, ".SignerInfo.CertificateChain") {
-			continue
-		}
-		if bt, isB := s.Call.Type().Underlying().(*types.Basic); !isB || bt.Kind() != types.Bool {
-			continue
-		}
-		if s.Facts["NOTBEFORE("+s.Chain+"[*].NotAfter,call:time.Now())"] && s.Exists["BEFORE("+s.Chain+"[*].NotAfter,call:time.Now())"] {
-			expScan = s
-		}
+	// the decision table: every abstract path of T (followed through the helpers that take part in the decision:
+	// c06Explorer) from the entry to a return or to the timestamp regime, for every combination of the abstract inputs
+	stops := map[*ssa.BasicBlock]bool{}
+	for _, b := range tsBlocks {
+		stops[b] = true
 	}
-	var tsaIn, expiredIn bool
-	var optIn string
-	hook := func(in ssa.Instruction, env map[ssa.Value]AVal) (AVal, bool) {
-		if expScan != nil && in == ssa.Instruction(expScan.Call) {
-			return AVal{Kind: aBool, B: expiredIn != expScan.Want}, true
-		}
-		if ex, ok := in.(*ssa.Extract); ok && ex.Tuple == gCall {
-			if ex.Index == 0 {
-				return AVal{Kind: aBool, B: tsaIn}, true
-			}
-			return AVal{Kind: aNil}, true
-		}
-		if v, ok := in.(ssa.Value); ok {
-			switch in.(type) {
-			case *ssa.UnOp, *ssa.Field:
-				if strings.HasSuffix(fr.lift(desc(v)), ".VerifyTimestamp") {
-					return AVal{Kind: aStr, Str: optIn}, true
-				}
-			}
-		}
-		return AVal{}, false
-	}
-	ip := &Interp{Fn: T, Hook: hook, TrackStrings: true, IntTypes: map[string]bool{}}
-	isExpiredEdge := func(from, to *ssa.BasicBlock) bool {
-		iff, ok := blockTerm(from).(*ssa.If)
-		if !ok || from.Succs[0] != to {
-			return false
-		}
-		op, args := splitTopArgs(fr.lift(c06Canon(condLabel(iff.Cond, true))))
-		return op == "BEFORE" && len(args) == 2 && strings.HasSuffix(args[0], "].NotAfter") && args[1] == "call:time.Now()"
-	}
-	expiredInputs := []bool{false}
-	if expScan != nil {
-		expiredInputs = []bool{false, true}
-	}
+	xp := &c06Explorer{w: w, sc: sc, root: T, stops: stops, G: G}
 	var bad []string
 	nPaths := 0
 	table := map[string]string{}
 	for _, tsa := range []bool{false, true} {
 		for _, opt := range []string{"", oal, oa, "bogus"} {
-			for _, expIn := range expiredInputs {
-				tsaIn, optIn, expiredIn = tsa, opt, expIn
-				outs := ip.Run(T.Blocks[0], nil, map[ssa.Value]AVal{}, map[*ssa.BasicBlock]bool{ts: true}, nil)
-				for _, o := range outs {
+			for _, expIn := range []bool{false, true} {
+				xp.tsaIn, xp.optIn, xp.expIn = tsa, opt, expIn
+				for _, o := range xp.Run(fr) {
 					nPaths++
-					// reconstruct whether the path saw an expired certificate before the decision
-					sawExpired := false
-					trace := o.Trace
-					if o.Stop != nil {
-						trace = append(append([]int(nil), trace...), o.Stop.Index)
-					}
-					for i := 0; i+1 < len(trace); i++ {
-						if isExpiredEdge(T.Blocks[trace[i]], T.Blocks[trace[i+1]]) {
-							sawExpired = true
-						}
-					}
-					// ... or was told so by the scan call it evaluated
-					if expScan != nil && expiredIn {
-						for _, bi := range o.Trace {
-							if bi == expScan.Call.Block().Index {
-								sawExpired = true
-							}
-						}
-					}
+					// whether the path saw an expired certificate before the decision (an edge "NotAfter is before time.Now()" of
+					// the path, in T or in a helper it followed) or was told so by the scan call it evaluated
+					sawExpired := o.Saw
 					regime := "now"
-					if o.Stop == ts {
+					if o.Stop != nil {
 						regime = "timestamp"
 					}
 					want := "now"
@@ -368,8 +353,9 @@ func c06Regime(c *Ctx, sc *c06Scanner, T *ssa.Function) {
 						}
 					} else if regime == "now" && sawExpired {
 						// the path concluded 'not expired' in the decision scan and later met an expired certificate in the valid-now scan
-						// (both use time.Now()); the valid-now scan rejects it. Not a decision error.
-						if o.Ret != nil && len(o.Ret.Results) == 1 && !isNilConst(o.Ret.Results[0]) {
+						// (both use time.Now()): infeasible, and the valid-now scan rejects it. Not a decision error — provided the path
+						// does end in a failure (the value it returns is a non-nil error on this very path).
+						if o.Ret != nil && len(o.Vals) > 0 && o.Vals[len(o.Vals)-1].Kind == aNonNil {
 							continue
 						}
 					}
@@ -386,11 +372,11 @@ func c06Regime(c *Ctx, sc *c06Scanner, T *ssa.Function) {
 			}
 		}
 	}
-	c.Evals += ip.Steps
+	c.Evals += xp.Steps
 	c.Extra["regime_paths"] = nPaths
 	c.Extra["regime_table"] = table
 	rule := "finite decision table by abstract interpretation: timestamp verification is performed exactly when a tsa store is listed and the option is not afterCertExpiry, or it is afterCertExpiry and a certificate of the chain is expired at time.Now(); otherwise the chain is judged at time.Now()"
-	if ip.Overflow || nPaths == 0 {
+	if xp.Overflow || nPaths == 0 {
 		c.Unk("regime/decision-table", rule, w.FnPos(T), "abstract interpretation did not terminate within bounds")
 	} else if len(bad) > 0 {
 		bad = uniq(bad)
@@ -399,15 +385,16 @@ func c06Regime(c *Ctx, sc *c06Scanner, T *ssa.Function) {
 		}
 		c.Bad("regime/decision-table", rule, w.FnPos(T), strings.Join(bad, "\n"))
 	} else {
-		c.OK("regime/decision-table", rule, w.InstrPos(blockTerm(ts)))
+		c.OK("regime/decision-table", rule, w.InstrPos(blockTerm(tsBlocks[0])))
 	}
-	// the decision scan covers the whole chain with time.Now(): the expired-edge exists and its loop ranges over CertificateChain
-	// valid-now regime: success exits that avoid the timestamp regime traverse a loop with both gates
-	// a whole-chain scan (inline loop, helper, or library search: c06Scan) of SignerInfo.CertificateChain whose per-element
-	// facts are both bounds against time.Now(), behind which every success exit that avoids the timestamp regime lies
+	// valid-now regime: a whole-chain scan (inline loop, helper, or library search: c06Scan) of SignerInfo.CertificateChain
+	// whose per-element facts are both bounds against time.Now(), behind which every success exit that avoids the timestamp
+	// regime lies
 	rule2 := "without timestamping every certificate of the whole chain satisfies !now.Before(NotBefore) and !now.After(NotAfter) with now = time.Now(); success only after the loop"
 	base := map[edgeKey]bool{}
-	cutInto(fi, ts, base)
+	for _, b := range tsBlocks {
+		cutInto(fi, b, base)
+	}
 	var nowScan *c06Scan
 	var nowWit []string
 	for _, s := range sc.lifted(T, fr) {
@@ -434,11 +421,17 @@ func c06TimestampPath(c *Ctx, sc *c06Scanner, T *ssa.Function) {
 	w := c.W
 	fi := w.Info(T)
 	fr := c06FrameOf(w, T)
-	ts := tsStopBlock(T)
-	if ts == nil {
+	tsBlocks := c06TsBlocks(w, T)
+	if len(tsBlocks) == 0 {
 		return
 	}
-	s := fi.summarizeFrom(Mode{Kind: mErr}, []state{{ts.Index, 0, -1}}, nil)
+	// the exits of T behind the entry of the timestamp regime, with the facts every path to them passes — in T or, composed
+	// by the engine with the arguments in place of the parameters, in the helpers whose verdict T gates on
+	var starts []state
+	for _, b := range tsBlocks {
+		starts = append(starts, state{b.Index, 0, -1})
+	}
+	s := fi.summarizeFrom(Mode{Kind: mErr}, starts, nil)
 	c.Evals += s.States
 	s.Exits = fr.liftExits(s.Exits)
 	tok := "call:tspclient.ParseSignedToken("
@@ -452,15 +445,26 @@ func c06TimestampPath(c *Ctx, sc *c06Scanner, T *ssa.Function) {
 		{Name: "tsa-revocation-error", What: "timestamping validator err == nil", Subs: []string{"EQ(call:invoke:core/revocation.Validator.ValidateContext(", "#err,nil)"}},
 		{Name: "tsa-revocation-ok", What: "aggregate over the TSA chain == ResultOK", Subs: []string{"EQ(call:ngo/verifier.", "(call:invoke:core/revocation.Validator.ValidateContext(", "#0,call:(*tspclient.SignedToken).Verify(", "#0,const:1)"}},
 	})
+	// the function of T's call tree in which the countersignature is verified (T itself or a helper): the provenance of the
+	// roots and of the verification time is read there, its labels are read in T's frame (c06LifterIn)
+	var verify *ssa.Call
+	for _, call := range c06TreeCalls(w, T, "(*tspclient.SignedToken).Verify") {
+		verify = call
+	}
+	VF := T
+	if verify != nil {
+		VF = verify.Parent()
+	}
+	vLift := c06LifterIn(w, VF, T, fr)
 	// tsa stores: loaded via a loader call whose wrapper passes the tsa constant (C03 c), non-empty
 	var loadCall *ssa.Call
-	for _, ci := range allCalls(T) {
+	for _, ci := range allCalls(VF) {
 		call, ok := ci.(*ssa.Call)
 		if !ok {
 			continue
 		}
 		g := staticCallee(call)
-		if g != nil && w.IsProductFn(g) && isErrorType(g.Signature.Results().At(g.Signature.Results().Len()-1).Type()) && strings.Contains(g.Signature.Results().At(0).Type().String(), "x509.Certificate") && mentionsConst(w, g, "tsa") {
+		if g != nil && w.IsProductFn(g) && g.Signature.Results().Len() > 0 && isErrorType(g.Signature.Results().At(g.Signature.Results().Len()-1).Type()) && strings.Contains(g.Signature.Results().At(0).Type().String(), "x509.Certificate") && mentionsConst(w, g, "tsa") {
 			loadCall = call
 		}
 	}
@@ -468,17 +472,13 @@ func c06TimestampPath(c *Ctx, sc *c06Scanner, T *ssa.Function) {
 		c.Bad("timestamp/tsa-stores", "the TSA roots are loaded by the tsa-typed loader", w.FnPos(T), "no call of a loader that selects tsa stores")
 		return
 	}
-	ld := fr.lift(desc(loadCall))
-	ld0 := fr.lift(res(loadCall, 0))
+	ld := vLift(desc(loadCall))
+	ld0 := vLift(res(loadCall, 0))
 	c.requireOnExits("timestamp", T, s.Exits, []Need{
 		{Name: "tsa-stores-loaded", What: "tsa loader err == nil", Subs: []string{"EQ(" + ld + "#err,nil)"}},
 		{Name: "tsa-stores-non-empty", What: "len(tsa certificates) != 0", Alt: [][]string{{"NE(len(" + ld0 + "),const:0)"}, {"GT(len(" + ld0 + "),const:0)"}}},
 	})
 	// Verify options: Roots <- pool filled only with loader certificates; CurrentTime <- timestamp.Value
-	var verify *ssa.Call
-	for _, ci := range findCalls(T, "(*tspclient.SignedToken).Verify") {
-		verify = ci.(*ssa.Call)
-	}
 	if verify != nil {
 		al, _ := unwrapLoadAlloc(verify.Call.Args[2])
 		var roots, cur ssa.Value
@@ -545,7 +545,7 @@ func c06TimestampPath(c *Ctx, sc *c06Scanner, T *ssa.Function) {
 		if !h1 || !h2 {
 			continue
 		}
-		wit := sc.covers(fi, Mode{Kind: mErr}, []state{{ts.Index, 0, -1}}, nil, sn)
+		wit := sc.covers(fi, Mode{Kind: mErr}, starts, nil, sn)
 		c.Evals += 2
 		if win == nil || wit == nil {
 			win, winWit = sn, wit
@@ -557,12 +557,9 @@ func c06TimestampPath(c *Ctx, sc *c06Scanner, T *ssa.Function) {
 	} else {
 		c.Check(winWit == nil, "timestamp/window", rule, win.Site, "the window check can be bypassed", winWit...)
 	}
-	// revocation of the TSA chain: the validator receives the chain returned by Verify
-	for _, ci := range allCalls(T) {
-		call, ok := ci.(*ssa.Call)
-		if !ok || calleeName(call) != "invoke:core/revocation.Validator.ValidateContext" {
-			continue
-		}
+	// revocation of the TSA chain: the validator receives the chain returned by Verify (the call may sit in a helper that is
+	// handed the chain: its parameter is the caller's argument)
+	for _, call := range c06TreeCalls(w, T, "invoke:core/revocation.Validator.ValidateContext") {
 		al, _ := unwrapLoadAlloc(call.Call.Args[1])
 		var chain ssa.Value
 		if al != nil {
@@ -576,7 +573,11 @@ func c06TimestampPath(c *Ctx, sc *c06Scanner, T *ssa.Function) {
 				}
 			}
 		}
-		c.Check(chain != nil && strings.HasPrefix(desc(chain), "call:(*tspclient.SignedToken).Verify(") && strings.HasSuffix(desc(chain), "#0"), "timestamp/revocation-of-tsa-chain",
-			"provenance: the timestamping validator is consulted with the TSA chain returned by the countersignature verification", w.InstrPos(call), "CertChain is "+desc(chain))
+		d := "?"
+		if chain != nil {
+			d = c06LifterIn(w, call.Parent(), T, fr)(desc(chain))
+		}
+		c.Check(chain != nil && strings.HasPrefix(d, "call:(*tspclient.SignedToken).Verify(") && strings.HasSuffix(d, "#0"), "timestamp/revocation-of-tsa-chain",
+			"provenance: the timestamping validator is consulted with the TSA chain returned by the countersignature verification", w.InstrPos(call), "CertChain is "+d)
 	}
 }
